@@ -42,6 +42,40 @@ pub fn feature_texts() -> Vec<(String, String)> {
         add("big-literal", format!("pragma solidity 0.8.0 ; contract C {{ function f ( uint256 a ) public {{ x = a * {lit} ; y = {lit} / a ; z = a / {lit} * 2 ; arr [ {lit} ] = arr [ {lit} ] + 1 ; }} }}"));
         add("big-literal", format!("pragma solidity 0.8.0 ; contract C {{ function f ( address a ) public {{ if ( a == address ( {lit} ) ) {{ }} }} }}"));
     }
+    // boundary values for the two numeric fields of a literal (integer part, exponent): +-2^k, +-(2^k +- 1)
+    {
+        let mut bounds: Vec<String> = Vec::new();
+        for k in [7u32, 8, 15, 16, 31, 32, 63, 64, 127, 128] {
+            let p: u128 = if k == 128 { u128::MAX } else { 1u128 << k };
+            for v in [p.wrapping_sub(1), p, p.wrapping_add(1)] {
+                if v != 0 {
+                    bounds.push(v.to_string());
+                }
+            }
+        }
+        bounds.push("340282366920938463463374607431768211456".into()); // 2^128
+        bounds.push("115792089237316195423570985008687907853269984665640564039457584007913129639935".into()); // 2^256 - 1
+        bounds.sort();
+        bounds.dedup();
+        for b in &bounds {
+            for lit in [format!("1e{b}"), format!("1e-{b}"), format!("{b}e-{b}"), format!("{b}"), format!("{b}e0"), format!("0e{b}")] {
+                add("boundary-literal", format!("pragma solidity 0.8.0 ; contract C {{ function f ( uint256 a ) public {{ x = a * {lit} ; y = {lit} / a ; arr [ {lit} ] = arr [ {lit} ] + 1 ; if ( a == address ( {lit} ) ) {{ }} }} }}"));
+            }
+        }
+    }
+    // every combination of operand shapes in `L = X op Y` (array-update look-alikes), incl. empty subscripts
+    {
+        let shapes = ["v [ 0 ]", "v [ ]", "v [ i ]", "m [ 1 ] [ 2 ]", "m [ 1 ] [ ]", "g ( ) [ 0 ]", "v", "( v ) [ 0 ]", "v [ 0 ] [ ]", "v [ 1e3 ]"];
+        for l in shapes {
+            for x in shapes {
+                let mut body = String::new();
+                for y in shapes {
+                    body.push_str(&format!("{l} = {x} + {y} ; "));
+                }
+                add("array-update-shapes", format!("pragma solidity 0.8.0 ; contract C {{ function f ( ) public {{ {body} }} }}"));
+            }
+        }
+    }
     for callee in ["address", "payable", "require", "keccak256", "selfdestruct", "suicide", "assert", "revert", "uint256", "bytes", "abi . encode", "x . add", "x . transfer"] {
         add("zero-argument-call", format!("pragma solidity 0.8.4 ; contract C {{ function f ( ) public {{ {callee} ( ) ; if ( a == {callee} ( ) ) {{ }} if ( {callee} ( ) != a ) {{ }} y = {callee} ( ) . balance ; }} }}"));
     }
